@@ -25,7 +25,8 @@
    break such as `p{x\n}`, is covered by the model/implementation correspondence only). *)
 From Coq Require Import String.
 From Emmet Require Import lib.Base lib.StrLit model.MarkupTokenizer model.MarkupParser model.MarkupConvert
-     model.OutStream model.FormatHtml model.FormatIndent proofs.IndentStream proofs.IndentProofs.
+     model.OutStream model.FormatHtml model.FormatIndent proofs.IndentStream proofs.IndentProofs
+     proofs.HtmlEvents proofs.IndentHtml.
 
 (* indent_lines: for ALL trees in the domain, ALL option records (indent, newline, baseIndent strings, case,
    quotes, ...) and ALL punctuation records without line breaks, the output is exactly the lines of the
@@ -78,6 +79,45 @@ Theorem C15_class_names :
 Proof. exact class_dots_join. Qed.
 Print Assumptions C15_class_names.
 
+(* format_events (HTML side; also C01's "every element exactly once, in document order, with its own name"):
+   the chunks pushed by the HTML formatter (one chunk = one output.text callback invocation), filtered to tag
+   chunks (`<name` -> TOpen name, `</name>` -> TClose name), are the open/close event sequence of the forest, for
+   ALL trees and ALL option records in the domain [cfg_clean] / [node_clean]: no '<' inside names, attributes,
+   text, the newline/indent strings and the attribute tables; element names without line break and not starting
+   with '/' or '!'; comments off (they add comment chunks only: C12).  A self-closed element has no close event
+   ([erase] forgets the void flag: with selfClosingStyle html its open tag is written like any other). *)
+Theorem C15_format_events :
+  forall (c : oconfig),
+    cfg_clean c = true ->
+    forall forest : list anode,
+    forallb node_clean forest = true ->
+    tags (html_format c forest) = map erase (flat_map (tree_events c) forest).
+Proof. exact format_events_all. Qed.
+Print Assumptions C15_format_events.
+
+(* the nesting of the event sequence (opens so far minus closes so far; void elements do not nest) is the
+   preorder (depth, name) list of the forest *)
+Theorem C15_events_nesting :
+  forall (c : oconfig) (forest : list anode),
+    forallb named_tree forest = true ->
+    nest 0 (flat_map (tree_events c) forest) = map (dn c) (flat_map (preorder_nodes 0) forest).
+Proof. exact nest_forest. Qed.
+Print Assumptions C15_events_nesting.
+
+(* same_tree_as_html: one preorder walk of (depth, element) pairs such that the haml/pug/slim output is the
+   walk's blocks of lines, each element at its depth, and the open/close nesting of the HTML output's tag chunks
+   is the walk's (depth, name) list (names up to output.tagCase, which the indent formats do not apply) *)
+Theorem C15_same_tree_as_html :
+  forall (c : oconfig) (o : iopts) (forest : list anode),
+    cfg_clean c = true -> iopts_wf o = true ->
+    forallb node_wf forest = true -> forallb node_clean forest = true -> forallb named_tree forest = true ->
+    let walk := flat_map (preorder_nodes 0) forest in
+    os_value (fs_out (indent_format c o forest))
+      = join (of_newline (oc_fmt c) ++ of_base_indent (oc_fmt c)) (flat_map (element_block c o) walk)
+    /\ exists evs, tags (html_format c forest) = map erase evs /\ nest 0 evs = map (dn c) walk.
+Proof. exact same_tree. Qed.
+Print Assumptions C15_same_tree_as_html.
+
 (* non-vacuity: `ul#nav.a.b>li[title=x]{two\nlines}+.c` is in the domain; under haml with a tab indent the
    theorem's right-hand side is the expected text *)
 Definition ex_attr (n : string) (v : string) : aattr := mkAAttr (Some (S n)) (Some [VStr (S v)]) VRaw false false false.
@@ -89,8 +129,10 @@ Definition ex_cfg : oconfig :=
   mkOconfig (mkOfmt [c_tab] [] [c_nl]) [] [] [] true false [] [] 3 false [] (S "html") [] false [] [] [] false None None.
 
 Example C15_nonvacuous :
-  forallb node_wf ex_tree = true
+  forallb node_wf ex_tree = true /\ forallb node_clean ex_tree = true /\ forallb named_tree ex_tree = true
+  /\ cfg_clean ex_cfg = true
   /\ iopts_wf haml_opts = true
+  /\ nest 0 (flat_map (tree_events ex_cfg) ex_tree) = [(0, S "ul"); (1, S "li"); (1, S "div")]
   /\ join [c_nl] (flat_map (node_lines ex_cfg haml_opts 0) ex_tree)
      = S "%ul#nav.a.b" ++ [c_nl; c_tab] ++ S "%li(title=""x"")" ++ [c_nl; c_tab; c_tab] ++ S "two   |"
        ++ [c_nl; c_tab; c_tab] ++ S "lines |" ++ [c_nl; c_tab] ++ S ".c ".
